@@ -204,7 +204,7 @@ class Scheduler(object):
             g = int(math.log(max(u, 1e-300)) / math.log(1.0 - p)) + 1
         return g
 
-    def _pick_next(self, exclude):
+    def _pick_next(self, exclude, allow_self=True):
         pool = self.runnable - self.blocked - self.hold
         if not pool - {exclude}:
             pool = self.runnable - self.hold
@@ -222,7 +222,7 @@ class Scheduler(object):
                     continue
                 if t in self.runnable and t != exclude and (t not in self.blocked or t in cands):
                     return t
-                if t == exclude and exclude in self.runnable:
+                if t == exclude and exclude in self.runnable and allow_self:
                     return t
                 self.seg_pos += 1
                 self.diverged = True
@@ -330,6 +330,8 @@ class Scheduler(object):
         self.h = ((self.h * 1099511628211) ^ ((tid << 24) ^ (KIND_CODE['B'] << 16))) & M64
         self.kind_counts['B'] = self.kind_counts.get('B', 0) + 1
         self.blocked.add(tid)
+        if self.hold and not (self.runnable - self.blocked - self.hold):
+            self.hold = set()         # only held-back callers could still make progress: let them
         if self.ntasks < 2 or not (self.runnable - self.blocked):
             self.blocked.discard(tid)
             raise locks.DeadlockDetected('all live tasks are blocked on locks of the code under test')
@@ -339,7 +341,7 @@ class Scheduler(object):
         if self.mode in ('replay', 'directed') and self.seg_pos < len(self.segments_in) \
                 and self.segments_in[self.seg_pos][0] == tid:
             self.seg_pos += 1
-        nxt = self._pick_next(tid)
+        nxt = self._pick_next(tid, allow_self=False)
         if nxt is None or nxt == tid:
             self.blocked.discard(tid)
             raise locks.DeadlockDetected('nobody else can run')
